@@ -155,9 +155,9 @@ def run_contract_case(I, contract, case, timeout_ms=None, registry=None):
                 res["cover"] = str(s.check())
             old = contract.snapshot(I, ctx, a)
             params = contract.params(f)
-            args = [a[p] for p in params if p in a]
+            kwargs = {p: a[p] for p in params if p in a}
             try:
-                r = I.inline_call(ctx, f, args, {})
+                r = I.inline_call(ctx, f, [], kwargs)
                 out = ("return", r)
             except ExcVal as e:
                 out = ("raise", e)
